@@ -99,12 +99,14 @@ class C18(Prop):
     time_limit = {'quick': 60, 'thorough': 600}
     rule = ('router with/without fallback (with/without do_start_stop_run) and a script of 2-14 operations in random order: startTestRun / stopTestRun '
             '(also repeated or missing), add_rule for route prefixes over {0,1,ab,zz} (consume on/off, flag on/off, re-registration of a prefix, 3% with a "/" '
-            'in the prefix), add_rule for test ids incl. None (re-registration), 2% unknown policy, status events with route None or 1-4 segments (3% with an '
-            'empty segment) x 3 test ids/None x other fields, and round trips through 1-3 StreamToQueue codes popped by as many fresh consuming routers. '
+            'in the prefix, 6% for the empty prefix), add_rule for test ids incl. None and the empty string (re-registration), 2% unknown policy, status events with route None or 1-4 segments (8% with an '
+            'empty segment, so also the empty route code) x 4 test ids (one the empty string)/None x other fields, and round trips through 1-3 StreamToQueue codes (incl. the empty code) popped by as many fresh consuming routers; in 30% of the cases one event '
+            'is sent, then 1-3 rules are added (mostly for the first segment of its route code: new rule, replacement with other sink / consume flag; or its test id) and after each the same event '
+            '(25%: same first segment, other rest) is sent again, spread in this order over the script; in another 10% a route rule whose sink is the fallback object (or the sink of a test-id rule) and a test-id rule both match one event. '
             'In half of the cases 1-3 sinks have scripted behaviour at their 1st/2nd startTestRun / stopTestRun / status: they call router.add_rule '
             're-entrantly (with/without do_start_stop_run; fresh or already known sink; 4% bad prefix, 3% unknown policy) and/or raise; the driver '
             'survives every exception and carries on with the script. '
-            'thorough adds all configurations with <= 2 rules x <= 3 events from a 6-event alphabet, with start/stop around or across the rules, and '
+            'thorough adds all configurations with <= 2 rules x <= 3 events from a 6-event alphabet, with start/stop around or across the rules, every event-rule-same event[-rule-same event] history over 4 events x 5 earlier rules x 4 later rules, and '
             'every pair of one-act behaviours (7 kinds) at start/stop/status of the fallback and a rule sink over 5 histories. '
             'non-trivial = at least one rule and one status event, or a round trip; distinct = distinct input S-expression')
     assumptions = ['translator tie (harness/pystream.py): StreamResultRouter.status is symbolically executed and startTestRun/stopTestRun/add_rule/policy methods are matched statement by statement on every run; trusted: the translator and the reading of the recognised forms by TTV/Model/RouterSrc.lean (is-not-None, in-dict, and/not, str truthiness, split/slice, live-list loop); trusted normalisations before comparing: an arm is read knowing its test, nested ifs = `and`, conjuncts that cannot raise in canonical order (a dict lookup is only admitted on a path that tested the key, else the tie breaks), == None for is None, early returns with one forwarding call per path, aliases of the rule dicts, prefixes.get(k) tested for None = `k in prefixes` (values are pairs), split("/", n>=1)[0] / partition("/")[0], tests of the parameter do_start_stop_run split / merged / turned around - the order of calls on sinks, of the append and of the _in_run assignments is asserted as written',
@@ -224,14 +226,14 @@ class C18(Prop):
         if n == 0:
             return None
         segs = [rng.choice(SEGS) for _ in range(n)]
-        if rng.random() < 0.03:
-            segs[rng.randrange(n)] = ''
+        if rng.random() < 0.08:
+            segs[rng.randrange(n)] = ''              # an empty segment; alone it is the empty route code, which is not None
         return '/'.join(segs)
 
     def gen_event(self, rng):
         fname = rng.choice([None, None, 2])
-        return ev(rng.choice([None, 0, 1, 2]), rng.choice([None, 'inprogress', 'success', 'fail']),
-                  rng.choice([None, None, [0], [0, 1]]), rng.random() < 0.85, fname, None if fname is None else rng.choice([[], [65, 66]]),
+        return ev(rng.choice([None, 0, 1, 2, S.EMPTY_ID]), rng.choice([None, 'inprogress', 'success', 'fail']),
+                  rng.choice([None, None, [], [0], [0, 1]]), rng.random() < 0.85, fname, None if fname is None else rng.choice([[], [65, 66]]),
                   rng.random() < 0.2, rng.choice([None, None, 1]), self.gen_route(rng), rng.choice([None, 3]))
 
     def gen(self, rng, tier):
@@ -241,11 +243,13 @@ class C18(Prop):
             r = rng.random()
             if r < 0.6:
                 p = rng.choice(SEGS[:3])
+                if rng.random() < 0.06:
+                    p = ''                          # a rule for the empty first segment
                 if rng.random() < 0.03:
                     p = p + '/' + rng.choice(SEGS)
                 ops.append(['prefix', next(nsink), chars(p), rng.random() < 0.6, rng.random() < 0.5])
             elif r < 0.98:
-                ops.append(['id', next(nsink), rng.choice([None, ['some', 0], ['some', 1]]), rng.random() < 0.5])
+                ops.append(['id', next(nsink), rng.choice([None, ['some', 0], ['some', 1], ['some', S.EMPTY_ID]]), rng.random() < 0.5])
             else:
                 ops.append(['bad', next(nsink), rng.random() < 0.5])
         if rng.random() < 0.25:
@@ -256,12 +260,49 @@ class C18(Prop):
                 o[1] = rng.choice([0, 0] + [q[1] for q in rules if q is not o])
         ops += [['status', self.gen_event(rng)] for _ in range(rng.choice([1, 2, 3, 4, 5]))]
         if rng.random() < 0.35:
-            codes = [rng.choice(['0', '1', 'x', 'ab']) for _ in range(rng.choice([1, 1, 2, 3]))]
+            codes = [rng.choice(['0', '1', 'x', 'ab', '']) for _ in range(rng.choice([1, 1, 2, 3]))]
             ops.append(['trip', [chars(c) for c in codes], self.gen_event(rng)])
         ctl = rng.choice([['start', 'stop'], ['start', 'stop'], ['start', 'stop'], ['start'], ['start', 'stop', 'start', 'stop'], [], ['stop'],
                           ['start', 'start', 'stop']])
         # start/stop keep their relative order, everything else is shuffled around them
         rng.shuffle(ops)
+        if rng.random() < 0.3:
+            # the same event again after the rules changed: a route code seen BEFORE a rule for its first segment is added
+            # (or replaced, or the fallback / test-id rule it fell to is joined by one), then seen again - in this order,
+            # spread over the rest of the script
+            seg = rng.choice(SEGS[:3])
+            rest = [rng.choice(SEGS) for _ in range(rng.choice([0, 1, 1, 1, 2]))]
+            e = self.gen_event(rng)
+            e[8] = ['some', chars('/'.join([seg] + rest))]
+            pat = [['status', e]]
+            for _ in range(rng.choice([1, 1, 2, 3])):
+                r = rng.random()
+                if r < 0.75:
+                    pat.append(['prefix', next(nsink), chars(seg), rng.random() < 0.6, rng.random() < 0.5])
+                elif r < 0.9:
+                    pat.append(['prefix', next(nsink), chars(rng.choice(SEGS[:3])), rng.random() < 0.6, rng.random() < 0.5])
+                else:
+                    pat.append(['id', next(nsink), e[0], rng.random() < 0.5])
+                again = list(e)
+                if rng.random() < 0.25:
+                    again[8] = ['some', chars('/'.join([seg] + [rng.choice(SEGS) for _ in range(rng.choice([0, 1, 2]))]))]
+                pat.append(['status', again])
+            pos = sorted(rng.randrange(len(ops) + 1) for _ in pat)
+            for k, (q, o) in enumerate(zip(pos, pat)):
+                ops.insert(q + k, o)
+        elif rng.random() < 0.15:
+            # one object in two roles, and an event that two rules match: the fallback (or the sink of the test-id rule) is also the
+            # sink of the rule for the event's first route segment; the route rule wins, whoever its sink is
+            seg = rng.choice(SEGS[:3])
+            e = self.gen_event(rng)
+            e[8] = ['some', chars('/'.join([seg] + [rng.choice(SEGS) for _ in range(rng.choice([0, 1, 2]))]))]
+            ids = next(nsink)
+            pat = [['prefix', rng.choice([0, 0, ids]), chars(seg), rng.random() < 0.6, rng.random() < 0.5], ['id', ids, e[0], rng.random() < 0.5]]
+            rng.shuffle(pat)
+            pat.append(['status', e])
+            pos = sorted(rng.randrange(len(ops) + 1) for _ in pat)
+            for k, (q, o) in enumerate(zip(pos, pat)):
+                ops.insert(q + k, o)
         pos = sorted(rng.randrange(len(ops) + 1) for _ in ctl)
         for k, (p, c) in enumerate(zip(pos, ctl)):
             ops.insert(p + k, c)
@@ -328,6 +369,23 @@ class C18(Prop):
                             else:
                                 ops = rs[:1] + ['start'] + sts[:1] + rs[1:] + sts[1:] + ['stop'] + sts[:1]
                             yield [shape != 1 or nr != 1, shape != 2, ops, []]
+        # a route code seen before a rule for its first segment is added / replaced, then seen again (what a cache of resolved
+        # route codes must survive): event, rule, same event[, second rule, same event]
+        again = [ev(0, 'success', route='0/1'), ev(1, None, route='0'), ev(0, 'fail', route='0/1/ab'), ev(None, 'inprogress', route='1/0')]
+        first = [None, ['prefix', 10, chars('0'), True, False], ['prefix', 10, chars('0'), False, True], ['prefix', 10, chars('1'), True, True],
+                 ['id', 10, ['some', 0], False]]
+        later = [['prefix', 11, chars('0'), True, True], ['prefix', 11, chars('0'), False, False], ['prefix', 11, chars('1'), True, False],
+                 ['id', 11, ['some', 0], True]]
+        for e in again:
+            for e2 in again:
+                for r0 in first:
+                    for r1 in later:
+                        for r2 in [None] + later:
+                            ops = ([r0] if r0 else []) + ['start', ['status', e], r1, ['status', e], ['status', e2]]
+                            if r2:
+                                ops += [[r2[0], 12] + r2[2:], ['status', e], ['status', e2]]
+                            for fb in (True, False):
+                                yield [fb, True, ops + ['stop'], []]
         # scripted sinks: every pair of one-act behaviours at the first startTestRun / stopTestRun of the fallback and of a rule sink
         acts = [[], ['raise'], [['id', 20, ['some', 1], True]], [['prefix', 21, chars('0'), True, True]], [['id', 22, None, False]],
                 [['id', 23, ['some', 0], True], 'raise'], [['id', 24, ['some', 0], True], ['prefix', 25, chars('1'), False, True]]]
